@@ -56,7 +56,7 @@ Definition outside (k : fcase) : bool := let '(o, t, w) := k in negb (in_fragmen
 
 def fragment_suite(res, accepted):
     """the theorem C03_reparse_returns_the_result on the implementation: for every accepted case, Coq decides (Spec/Stable.v,
-    in_fragment: throw policies, stable type, exclusive-or results exact instances of an argument) whether the theorem speaks
+    in_fragment: throw policies, stable type) whether the theorem speaks
     about it; inside the fragment the implementation's second parse must return the first result exactly (same classes, same
     contents) -- no listed finding applies there"""
     import utype
